@@ -152,3 +152,321 @@ theorem C13.fd_adjoint_transpose {K : Type} [Field K] (m : Method) (p : Pad) (n 
     ((tbl m p).accs_fit hn) ((tbl _ _).accs_fit hn')
   simp only [fd, div_eq_mul_inv, ← mul_assoc, ← Finset.sum_mul]
   rw [eq_neg_iff_add_eq_zero, ← add_mul, key, zero_mul]
+
+
+/-- `order2` for ALL three methods (documented edge-order rule, code comment "2nd order
+edges"): rows 0 and n-1 are the second-order one-sided difference — i.e. the CENTRAL stencil
+on the quadratically extrapolated array — whatever `method` is; the other rows are the
+method's stencil.  For `central` this is `fd_eq_stencil_ext`; for `forward`/`backward` the
+boundary rows are deliberately not the method's stencil (next theorem). -/
+theorem C13.order2_edge_rule {K : Type} [Field K] [CharZero K] (m : Method)
+    (n : Nat) (hn : 3 ≤ n) (c dx : K) (f : Nat → K) (i : Nat) (hi : i < n) :
+    fd den (tbl m .order2) n c dx f i =
+      (if i = 0 ∨ i = n - 1 then stencil .central (padded .order2 n c f) i
+       else stencil m (padded .order2 n c f) i) / dx := by
+  have h2K : (2 : K) ≠ 0 := by
+    have := (Nat.cast_injective (R := K)).ne (show (2 : ℕ) ≠ 0 by decide)
+    exact_mod_cast this
+  unfold fd
+  rw [fdNum_closed _ n (by omega) c f i]
+  obtain ⟨k, rfl⟩ : ∃ k, n = k + 2 := ⟨n - 2, by omega⟩
+  by_cases hdx : dx = 0
+  · simp [hdx]
+  rcases (show i = 0 ∨ i = k + 1 ∨ (1 ≤ i ∧ i ≤ k) by omega) with rfl | rfl | ⟨ha, hb⟩
+  · cases m <;>
+      simp [tbl, accSum, evalTerms, evalTerm, interior, padded, stencil, ghostL, ghostR, den,
+        Corner.pos] <;> field_simp <;> ring
+  · cases m <;>
+      simp [tbl, accSum, evalTerms, evalTerm, interior, padded, stencil, ghostL, ghostR, den,
+        Corner.pos] <;> field_simp <;> ring
+  · have e1 : i ≠ 0 := by omega
+    have e2 : i ≠ k + 1 := by omega
+    have e3 : i + 2 ≤ k + 2 := by omega
+    have e4 : ¬ (i + 1 = k + 2) := by omega
+    have e5 : ¬ (i = k + 3) := by omega
+    have e6 : ¬ (i = k + 2 + 1) := by omega
+    have e7 : ¬ (i = k + 2) := by omega
+    cases m <;>
+      simp [tbl, accSum, evalTerms, evalTerm, interior, padded, stencil, ghostL, ghostR, den,
+        Corner.pos, e1, e2, e3, e4, e5, e6, e7, ha] <;> field_simp <;> ring
+
+/-- Recorded deviation from the literal reading "every method x every pad mode is the
+method's stencil on the extended array": for `(forward, order2)`, `n = 3`, `f = (0,0,1)`,
+row 0 is `-1/2` (one-sided second-order formula), while the forward stencil gives `0`. -/
+theorem C13.order2_forward_edge_differs :
+    fd den (tbl .forward .order2) 3 0 (1 : ℚ) (fun i => if i = 2 then 1 else 0) 0
+      ≠ stencil .forward (padded .order2 3 0 (fun i => if i = 2 then (1 : ℚ) else 0)) 0 / 1 := by
+  norm_num [fd, fdNum, tbl, interior, assign, accStep, evalTerms, evalTerm, Corner.pos, den,
+    stencil, padded, ghostL, ghostR]
+
+/-- unit vector -/
+def OdlModel.C13.unit {K : Type} [Field K] (j : Nat) : Nat → K := fun i => if i = j then 1 else 0
+
+/-- Matrix form: entry `(i,j)` of the operator with configuration `(m,p)` is minus entry
+`(j,i)` of the operator the code returns as adjoint.  In particular every adjoint pad mode is
+completely determined by (is minus the transpose of) its non-adjoint partner. -/
+theorem C13.fd_adjoint_entry {K : Type} [Field K] (m : Method) (p : Pad) (n : Nat)
+    (h : sizeCheck guards (tbl m p) p n = none)
+    (h' : sizeCheck guards (tbl (adjMethod m) (adjPad p)) (adjPad p) n = none)
+    (dx : K) (i j : Nat) (hi : i < n) (hj : j < n) :
+    fd den (tbl m p) n 0 dx (unit j) i
+      = - fd den (tbl (adjMethod m) (adjPad p)) n 0 dx (unit i) j := by
+  have key := C13.fd_adjoint_transpose m p n h h' dx (unit j) (unit i)
+  simpa [unit, Finset.sum_ite_eq', hi, hj] using key
+
+/-- `derivative`: for any leaf and any `pad_const = c`, `D_c(f + h) − D_c(f) = D_0(h)`: the
+operator is affine and its derivative (at every point) is the zero-padding operator. -/
+theorem C13.fd_affine {K : Type} [Field K] (t : Table) (n : Nat) (hn : 2 ≤ n) (c dx : K)
+    (f h : Nat → K) (i : Nat) :
+    fd den t n c dx (fun k => f k + h k) i - fd den t n c dx f i = fd den t n 0 dx h i := by
+  have lin : ∀ ts : List Term, evalTerms n c (fun k => f k + h k) ts
+      = evalTerms n c f ts + evalTerms n 0 h ts := by
+    intro ts
+    induction ts with
+    | nil => simp [evalTerms]
+    | cons a as ih =>
+      obtain ⟨q, src⟩ := a
+      cases src <;> simp [evalTerms, evalTerm, ih] <;> ring
+  have lacc : ∀ accs : List Acc, accSum n c (fun k => f k + h k) accs i
+      = accSum n c f accs i + accSum n 0 h accs i := by
+    intro accs
+    induction accs with
+    | nil => simp [accSum]
+    | cons a as ih => simp only [accSum, ih, lin]; split_ifs <;> ring
+  simp only [fd, fdNum_closed _ n hn, lin, lacc, interior]
+  split_ifs <;> ring
+
+
+/-! ### N-d operators (ndim ≤ 3): PartialDerivative, Gradient, Divergence, Laplacian -/
+
+/-- `PartialDerivative.adjoint` on an N-d array (any shape, axis `a`): the pairing over the
+whole index box satisfies `⟨G, ∂ₐF⟩ = −⟨F, ∂ₐ' G⟩` with `∂ₐ'` built from `_ADJ_METHOD`,
+`_ADJ_PADDING` (uniform weights cancel on both sides). -/
+theorem C13.pd_adjoint {K : Type} [Field K] (m : Method) (p : Pad) (shape : Nat → Nat)
+    (a : Nat) (ha : a < 3)
+    (h : sizeCheck guards (tbl m p) p (shape a) = none)
+    (h' : sizeCheck guards (tbl (adjMethod m) (adjPad p)) (adjPad p) (shape a) = none)
+    (dx : K) (F G : Idx → K) :
+    boxSum shape (fun x => G x * fdAxis den (tbl m p) shape a 0 dx F x)
+      = - boxSum shape
+          (fun x => F x * fdAxis den (tbl (adjMethod m) (adjPad p)) shape a 0 dx G x) := by
+  have key := boxSum_lift_pair shape a ha (fd den (tbl m p) (shape a) 0 dx)
+    (fd den (tbl (adjMethod m) (adjPad p)) (shape a) 0 dx)
+    (fun f g => by
+      rw [sum_add_distrib, C13.fd_adjoint_transpose m p (shape a) h h' dx f g]; ring) F G
+  rw [boxSum_add] at key
+  exact eq_neg_of_add_eq_zero_left key
+
+/-- `Gradient.adjoint = −Divergence(_ADJ_METHOD[m], _ADJ_PADDING[p])`: for every shape and
+`ndim = d ≤ 3`, `Σₐ ⟨Hₐ, (∇F)ₐ⟩ = −⟨F, div' H⟩`, with `divergence` the in-order
+accumulation of `Divergence._call`. -/
+theorem C13.grad_div_adjoint {K : Type} [Field K] (m : Method) (p : Pad) (shape : Nat → Nat)
+    (d : Nat) (hd : d ≤ 3)
+    (h : ∀ a < d, sizeCheck guards (tbl m p) p (shape a) = none)
+    (h' : ∀ a < d, sizeCheck guards (tbl (adjMethod m) (adjPad p)) (adjPad p) (shape a) = none)
+    (dx : Nat → K) (F : Idx → K) (H : Nat → Idx → K) :
+    ∑ a ∈ range d, boxSum shape (fun x => H a x * gradient den (tbl m p) shape 0 dx F a x)
+      = - boxSum shape (fun x => F x *
+            divergence den (tbl (adjMethod m) (adjPad p)) shape d 0 dx H x) := by
+  have e : ∀ a < d, boxSum shape (fun x => H a x * gradient den (tbl m p) shape 0 dx F a x)
+      = - boxSum shape (fun x => F x *
+            fdAxis den (tbl (adjMethod m) (adjPad p)) shape a 0 (dx a) (H a) x) :=
+    fun a ha => C13.pd_adjoint m p shape a (by omega) (h a ha) (h' a ha) (dx a) F (H a)
+  rcases (show d = 0 ∨ d = 1 ∨ d = 2 ∨ d = 3 by omega) with rfl | rfl | rfl | rfl
+  · simp [divergence, boxSum]
+  · simp only [sum_range_succ, sum_range_zero, zero_add, e 0 (by omega)]
+    simp [divergence, List.range_succ]
+  · simp only [sum_range_succ, sum_range_zero, zero_add, e 0 (by omega), e 1 (by omega)]
+    simp [divergence, List.range_succ, mul_add, boxSum_add]; ring
+  · simp only [sum_range_succ, sum_range_zero, zero_add, e 0 (by omega), e 1 (by omega),
+      e 2 (by omega)]
+    simp [divergence, List.range_succ, mul_add, boxSum_add]; ring
+
+/-- `Divergence.adjoint = −Gradient(_ADJ_METHOD[m], _ADJ_PADDING[p])`, i.e. divergence is
+minus the adjoint of the gradient with the partner configuration. -/
+theorem C13.div_grad_adjoint {K : Type} [Field K] (m : Method) (p : Pad) (shape : Nat → Nat)
+    (d : Nat) (hd : d ≤ 3)
+    (h : ∀ a < d, sizeCheck guards (tbl m p) p (shape a) = none)
+    (h' : ∀ a < d, sizeCheck guards (tbl (adjMethod m) (adjPad p)) (adjPad p) (shape a) = none)
+    (dx : Nat → K) (G : Idx → K) (H : Nat → Idx → K) :
+    boxSum shape (fun x => G x * divergence den (tbl m p) shape d 0 dx H x)
+      = - ∑ a ∈ range d, boxSum shape
+          (fun x => H a x * gradient den (tbl (adjMethod m) (adjPad p)) shape 0 dx G a x) := by
+  have e : ∀ a < d, boxSum shape (fun x => G x * fdAxis den (tbl m p) shape a 0 (dx a) (H a) x)
+      = - boxSum shape (fun x => H a x *
+            gradient den (tbl (adjMethod m) (adjPad p)) shape 0 dx G a x) :=
+    fun a ha => C13.pd_adjoint m p shape a (by omega) (h a ha) (h' a ha) (dx a) (H a) G
+  rcases (show d = 0 ∨ d = 1 ∨ d = 2 ∨ d = 3 by omega) with rfl | rfl | rfl | rfl
+  · simp [divergence, boxSum]
+  · simp only [sum_range_succ, sum_range_zero, zero_add, ← e 0 (by omega)]
+    simp [divergence, List.range_succ]
+  · simp only [sum_range_succ, sum_range_zero, zero_add]
+    simp only [divergence, List.range_succ, List.range_zero, List.nil_append, List.cons_append,
+      List.foldl_cons, List.foldl_nil, zero_add, mul_add, boxSum_add]
+    rw [e 0 (by omega), e 1 (by omega)]; ring
+  · simp only [sum_range_succ, sum_range_zero, zero_add]
+    simp only [divergence, List.range_succ, List.range_zero, List.nil_append, List.cons_append,
+      List.foldl_cons, List.foldl_nil, zero_add, mul_add, boxSum_add]
+    rw [e 0 (by omega), e 1 (by omega), e 2 (by omega)]; ring
+
+/-- 1-d: forward minus backward has the same rows for a pad mode and its adjoint partner,
+for the pad modes `Laplacian` accepts (so returning the same pad mode in
+`Laplacian.adjoint` is right although `_ADJ_PADDING` is not applied there). -/
+theorem C13.laplacian_rows_adj_invariant {K : Type} [Field K] (p : Pad) (hp : p ∉ lapRejected)
+    (n : Nat) (hn : 2 ≤ n) (dx : K) (f : Nat → K) (i : Nat) :
+    fd den (tbl .forward p) n 0 dx f i - fd den (tbl .backward p) n 0 dx f i
+      = fd den (tbl .forward (adjPad p)) n 0 dx f i
+        - fd den (tbl .backward (adjPad p)) n 0 dx f i := by
+  simp only [fd, fdNum_closed _ n hn]
+  cases p <;> simp [lapRejected] at hp <;>
+    simp [tbl, adjPad, accSum, evalTerms, evalTerm, interior] <;> split_ifs <;> ring
+
+
+/-- 1-d Laplacian (forward minus backward, same pad mode) is symmetric for every axis
+length `n ≥ 2` and every pad mode `Laplacian` accepts. -/
+theorem C13.laplacian1_selfadjoint {K : Type} [Field K] (p : Pad) (hp : p ∉ lapRejected)
+    (n : Nat) (hn : 2 ≤ n) (dx : K) (f g : Nat → K) :
+    ∑ i ∈ range n, g i * (fd den (tbl .forward p) n 0 dx f i - fd den (tbl .backward p) n 0 dx f i)
+      = ∑ i ∈ range n,
+          f i * (fd den (tbl .forward p) n 0 dx g i - fd den (tbl .backward p) n 0 dx g i) := by
+  have hmin : nMin p ≤ n ∧ nMin (adjPad p) ≤ n := by
+    cases p <;> simp [lapRejected] at hp <;> simp [nMin, adjPad] <;> omega
+  have s1 := (C13.size_ok_iff .forward p n).2 hmin.1
+  have s2 := (C13.size_ok_iff .backward p n).2 hmin.1
+  have s3 := (C13.size_ok_iff .backward (adjPad p) n).2 hmin.2
+  have s4 := (C13.size_ok_iff .forward (adjPad p) n).2 hmin.2
+  have a1 := C13.fd_adjoint_transpose .forward p n s1 s3 dx f g
+  have a2 := C13.fd_adjoint_transpose .backward p n s2 s4 dx f g
+  have inv := fun i => C13.laplacian_rows_adj_invariant p hp n hn dx g i
+  simp only [adjMethod] at a1 a2
+  simp only [mul_sub, sum_sub_distrib] at *
+  rw [a1, a2]
+  have : ∑ i ∈ range n, f i * fd den (tbl .forward p) n 0 dx g i
+       - ∑ i ∈ range n, f i * fd den (tbl .backward p) n 0 dx g i
+       = ∑ i ∈ range n, f i * fd den (tbl .forward (adjPad p)) n 0 dx g i
+       - ∑ i ∈ range n, f i * fd den (tbl .backward (adjPad p)) n 0 dx g i := by
+    rw [← sum_sub_distrib, ← sum_sub_distrib]
+    exact sum_congr rfl (fun i _ => by rw [← mul_sub, ← mul_sub, inv i])
+  rw [this]; ring
+
+/-- `Laplacian.adjoint` returns the Laplacian with the SAME pad mode and `pad_const = 0`:
+that is the transpose, for every shape, `ndim ≤ 3`, every accepted pad mode
+(`Laplacian._call` accumulation order `out += fwd; out -= bwd` per axis, `dx²`). -/
+theorem C13.laplacian_selfadjoint {K : Type} [Field K] (p : Pad) (hp : p ∉ lapRejected)
+    (shape : Nat → Nat) (d : Nat) (hd : d ≤ 3) (hs : ∀ a < d, 2 ≤ shape a)
+    (dx : Nat → K) (F G : Idx → K) :
+    boxSum shape (fun x => G x *
+        laplacian den (tbl .forward p) (tbl .backward p) shape d 0 dx F x)
+      = boxSum shape (fun x => F x *
+        laplacian den (tbl .forward p) (tbl .backward p) shape d 0 dx G x) := by
+  have e : ∀ a < d, boxSum shape (fun x => G x *
+        (fdAxis den (tbl .forward p) shape a 0 (dx a * dx a) F x
+          - fdAxis den (tbl .backward p) shape a 0 (dx a * dx a) F x))
+      = boxSum shape (fun x => F x *
+        (fdAxis den (tbl .forward p) shape a 0 (dx a * dx a) G x
+          - fdAxis den (tbl .backward p) shape a 0 (dx a * dx a) G x)) := by
+    intro a ha
+    have key := boxSum_lift_pair shape a (by omega)
+      (fun f i => fd den (tbl .forward p) (shape a) 0 (dx a * dx a) f i
+        - fd den (tbl .backward p) (shape a) 0 (dx a * dx a) f i)
+      (fun f i => -(fd den (tbl .forward p) (shape a) 0 (dx a * dx a) f i
+        - fd den (tbl .backward p) (shape a) 0 (dx a * dx a) f i))
+      (fun f g => by
+        have := C13.laplacian1_selfadjoint p hp (shape a) (hs a ha) (dx a * dx a) f g
+        simp only [mul_neg, ← sub_eq_add_neg, sum_sub_distrib]
+        rw [this]; ring) F G
+    simp only [lift, mul_neg, ← sub_eq_add_neg] at key
+    have key' : boxSum shape (fun x => G x *
+        (fdAxis den (tbl .forward p) shape a 0 (dx a * dx a) F x
+          - fdAxis den (tbl .backward p) shape a 0 (dx a * dx a) F x)
+        + - (F x * (fdAxis den (tbl .forward p) shape a 0 (dx a * dx a) G x
+          - fdAxis den (tbl .backward p) shape a 0 (dx a * dx a) G x))) = 0 := by
+      simpa [fdAxis, sub_eq_add_neg] using key
+    rw [boxSum_add, boxSum_neg] at key'
+    exact eq_of_sub_eq_zero (by rw [sub_eq_add_neg]; exact key')
+  rcases (show d = 0 ∨ d = 1 ∨ d = 2 ∨ d = 3 by omega) with rfl | rfl | rfl | rfl
+  · simp [laplacian, boxSum]
+  · have e0 := e 0 (by omega)
+    simpa [laplacian, List.range_succ] using e0
+  · have e0 := e 0 (by omega)
+    have e1 := e 1 (by omega)
+    simp only [laplacian, List.range_succ, List.range_zero, List.nil_append, List.cons_append,
+      List.foldl_cons, List.foldl_nil, zero_add, add_sub_assoc, mul_add, boxSum_add]
+    rw [e0, e1]
+  · have e0 := e 0 (by omega)
+    have e1 := e 1 (by omega)
+    have e2 := e 2 (by omega)
+    simp only [laplacian, List.range_succ, List.range_zero, List.nil_append, List.cons_append,
+      List.foldl_cons, List.foldl_nil, zero_add, add_sub_assoc, mul_add, boxSum_add]
+    rw [e0, e1, e2]
+
+
+/-- N-d form of `fd_eq_stencil_ext`: `PartialDerivative` / each `Gradient` component at
+multi-index `x` is the stencil on the padded LINE through `x` along the axis. -/
+theorem C13.pd_eq_stencil_ext {K : Type} [Field K] [CharZero K] (m : Method) (p : Pad)
+    (hp : stencilCase m p = true) (shape : Nat → Nat) (a : Nat) (hn : nMin p ≤ shape a)
+    (c dx : K) (F : Idx → K) (x : Idx) (hx : x.get a < shape a) :
+    fdAxis den (tbl m p) shape a c dx F x
+      = stencil m (padded p (shape a) c (fun q => F (x.set a q))) (x.get a) / dx :=
+  C13.fd_eq_stencil_ext m p hp (shape a) hn c dx _ _ hx
+
+/-- `Laplacian` equals the sum over the axes of the textbook second difference
+`(E[i+1] − 2E[i] + E[i−1]) / dxₐ²` of the padded line (extension pad modes, any `pad_const`). -/
+theorem C13.laplacian_eq_second_difference {K : Type} [Field K] [CharZero K] (p : Pad)
+    (hp : p = .constant ∨ p = .symmetric ∨ p = .periodic ∨ p = .order0)
+    (shape : Nat → Nat) (d : Nat) (hd : d ≤ 3) (hs : ∀ a < d, 2 ≤ shape a)
+    (c : K) (dx : Nat → K) (F : Idx → K) (x : Idx) (hx : ∀ a < d, x.get a < shape a) :
+    laplacian den (tbl .forward p) (tbl .backward p) shape d c dx F x
+      = ∑ a ∈ range d,
+          (padded p (shape a) c (fun q => F (x.set a q)) (x.get a + 2)
+            - 2 * padded p (shape a) c (fun q => F (x.set a q)) (x.get a + 1)
+            + padded p (shape a) c (fun q => F (x.set a q)) (x.get a)) / (dx a * dx a) := by
+  have e : ∀ a < d, fdAxis den (tbl .forward p) shape a c (dx a * dx a) F x
+        - fdAxis den (tbl .backward p) shape a c (dx a * dx a) F x
+      = (padded p (shape a) c (fun q => F (x.set a q)) (x.get a + 2)
+            - 2 * padded p (shape a) c (fun q => F (x.set a q)) (x.get a + 1)
+            + padded p (shape a) c (fun q => F (x.set a q)) (x.get a)) / (dx a * dx a) := by
+    intro a ha
+    have hn : nMin p ≤ shape a := by
+      have := hs a ha
+      rcases hp with rfl | rfl | rfl | rfl <;> simpa [nMin] using this
+    have hf : stencilCase .forward p = true := by rcases hp with rfl | rfl | rfl | rfl <;> rfl
+    have hb : stencilCase .backward p = true := by rcases hp with rfl | rfl | rfl | rfl <;> rfl
+    rw [C13.pd_eq_stencil_ext .forward p hf shape a hn c _ F x (hx a ha),
+      C13.pd_eq_stencil_ext .backward p hb shape a hn c _ F x (hx a ha)]
+    simp only [stencil]; ring
+  rcases (show d = 0 ∨ d = 1 ∨ d = 2 ∨ d = 3 by omega) with rfl | rfl | rfl | rfl
+  · simp [laplacian]
+  · simp only [laplacian, List.range_succ, List.range_zero, List.nil_append, List.cons_append,
+      List.foldl_cons, List.foldl_nil, zero_add, add_sub_assoc, sum_range_succ, sum_range_zero,
+      e 0 (by omega)]
+  · simp only [laplacian, List.range_succ, List.range_zero, List.nil_append, List.cons_append,
+      List.foldl_cons, List.foldl_nil, zero_add, add_sub_assoc, sum_range_succ, sum_range_zero,
+      e 0 (by omega), e 1 (by omega)]
+  · simp only [laplacian, List.range_succ, List.range_zero, List.nil_append, List.cons_append,
+      List.foldl_cons, List.foldl_nil, zero_add, add_sub_assoc, sum_range_succ, sum_range_zero,
+      e 0 (by omega), e 1 (by omega), e 2 (by omega)]
+
+/-- N-d form of `fd_affine` (`PartialDerivative.derivative`; Gradient/Divergence/Laplacian
+are component-wise / sums of it). -/
+theorem C13.pd_affine {K : Type} [Field K] (t : Table) (shape : Nat → Nat) (a : Nat)
+    (hn : 2 ≤ shape a) (c dx : K) (F H : Idx → K) (x : Idx) :
+    fdAxis den t shape a c dx (fun y => F y + H y) x - fdAxis den t shape a c dx F x
+      = fdAxis den t shape a 0 dx H x :=
+  C13.fd_affine t (shape a) hn c dx _ _ _
+
+example : ∑ i ∈ range 3, (fun i => (i : ℚ) + 1) i *
+      fd den (tbl .forward .order2Adj) 3 0 (1/2 : ℚ) (fun i => (i : ℚ) * i) i
+    = - ∑ j ∈ range 3, (fun i => (i : ℚ) * i) j *
+      fd den (tbl .backward .order2) 3 0 (1/2 : ℚ) (fun i => (i : ℚ) + 1) j :=
+  C13.fd_adjoint_transpose .forward .order2Adj 3 (by decide) (by decide) _ _ _
+
+example (F G : Idx → ℚ) :
+    boxSum (fun a => if a = 0 then 2 else if a = 1 then 3 else 1) (fun x => G x *
+      laplacian den (tbl .forward .symmetric) (tbl .backward .symmetric)
+        (fun a => if a = 0 then 2 else if a = 1 then 3 else 1) 2 0 (fun _ => 1) F x)
+    = boxSum (fun a => if a = 0 then 2 else if a = 1 then 3 else 1) (fun x => F x *
+      laplacian den (tbl .forward .symmetric) (tbl .backward .symmetric)
+        (fun a => if a = 0 then 2 else if a = 1 then 3 else 1) 2 0 (fun _ => 1) G x) :=
+  C13.laplacian_selfadjoint .symmetric (by decide) _ 2 (by decide)
+    (by intro a ha; rcases (show a = 0 ∨ a = 1 by omega) with rfl | rfl <;> simp) _ F G
